@@ -1,4 +1,7 @@
-# throw-away feasibility prototype: MD6 from the spec, ints only
+"""Reference MD6 (Rivest et al., "The MD6 hash function", 2008): compression function over 89-word inputs, 4-ary tree
+(PAR) levels up to L, sequential (SEQ) level L+1, control word V = r|L|z|p|keylen|d, node ids U = level|index,
+final d bits of the root, left-aligned in ceil(d/8) bytes (md6_mode.c trim_hashval).  Q = fractional part of sqrt(6).
+Imports nothing from crysp."""
 from math import isqrt
 M64=(1<<64)-1
 def _Q():
@@ -75,22 +78,17 @@ def md6(M,bitlen=None,d=256,key=b'',L=64,r=None):
     v=int.from_bytes(M,'big')&((1<<d)-1)
     nby=(d+7)//8
     return (v<<(8*nby-d)).to_bytes(nby,'big')
-if __name__=='__main__':
-    import sys; sys.path.insert(0,'/repo')
-    print([hex(q) for q in Q[:3]])
-    print(md6(b'abc',d=256,r=5).hex()=="8854c14dc284f840ed71ad7ba542855ce189633e48c797a55121a746be48cec8")
-    m=b''.join([bytes.fromhex("11223344556677")]*85+[bytes.fromhex("1122334455")]); assert len(m)==600
-    print(md6(m,d=224,key=b'abcde12345',r=5).hex()=="894cf0598ad3288ed4bb5ac5df23eba0ac388a11b7ed2e3dd5ec5131")
-    m=b''.join([bytes.fromhex("11223344556677")]*114+[b"\x11\x22"]); assert len(m)==800
-    print(md6(m,d=256,L=0).hex()=="4e78ab5ec8926a3db0dcfa09ed48de6c33a7399e70f01ebfc02abb52767594e2")
-    print(md6(b'',d=256).hex(), md6(b'abc',d=256).hex())
-    # compare with crysp on a few
-    from crysp.md import MD6
-    import os
-    bad=0
-    for n in (0,1,100,511,512,513,1000,2048,2049,5000):
-        for d in (256,160,512):
-            for L in (64,0,1,2):
-                M=os.urandom(n); x=MD6(d,L=L); x.rounds=3
-                if x(M)!=md6(M,d=d,L=L,r=3): bad+=1; print('diff',n,d,L)
-    print('bad',bad)
+
+
+def selftest():
+    assert Q[0] == 0x7311c2812425cfa0 and Q[14] == 0x0d6f3522631effcb
+    # worked examples of the MD6 report (section "Sample computations"), as quoted in tests/test_md.py
+    assert md6(b"abc", d=256, r=5).hex() == "8854c14dc284f840ed71ad7ba542855ce189633e48c797a55121a746be48cec8"
+    m = b"".join([bytes.fromhex("11223344556677")] * 85 + [bytes.fromhex("1122334455")])
+    assert md6(m, d=224, key=b"abcde12345", r=5).hex() == "894cf0598ad3288ed4bb5ac5df23eba0ac388a11b7ed2e3dd5ec5131"
+    m = b"".join([bytes.fromhex("11223344556677")] * 114 + [b"\x11\x22"])
+    assert md6(m, d=256, L=0).hex() == "4e78ab5ec8926a3db0dcfa09ed48de6c33a7399e70f01ebfc02abb52767594e2"
+    # published MD6-256 digests of "" and "abc" (default rounds, L = 64)
+    assert md6(b"", d=256).hex() == "bca38b24a804aa37d821d31af00f5598230122c5bbfc4c4ad5ed40e4258f04ca"
+    assert md6(b"abc", d=256).hex() == "230637d4e6845cf0d092b558e87625f03881dd53a7439da34cf3b94ed0d8b2c5"
+    return "MD6 Q from sqrt(6); 3 worked examples of the report (tree, keyed, sequential), MD6-256('') and ('abc')"
